@@ -29,7 +29,13 @@ func InjectBad(w *model.World, r *sim.RNG, p float64, max int, allowNull bool) i
 						suffix = "/x"
 					}
 					choice := r.Intn(4)
+					if allowNull && strings.Contains(ref, "#/definitions/") && r.Intn(5) == 0 {
+						choice = 8
+					}
 					switch choice {
+					case 8:
+						// through a member that may hold a boolean or be absent
+						c["$ref"] = ref + []string{"/additionalProperties/properties/name", "/additionalItems/items", "/items/0/not", "/not/additionalProperties"}[r.Intn(4)]
 					case 9:
 						c["$ref"] = ref + "%zz" // not even a URL (C04 only)
 					case 0:
